@@ -30,7 +30,10 @@ TCrash == IsEvent("Crash") /\ FALSE
 (* the transmit log of the schedule: judged by AgwpeTxTrace.tla *)
 TTxLog == IsEvent("TxLog") /\ UNCHANGED dummy /\ Consume
 (* how many frames the library's own log says it dropped in this schedule (used to attribute losses to the known finding) *)
-TDrops == IsEvent("Drops") /\ UNCHANGED dummy /\ Consume
+(* the library's own log: dropped frames (the known finding, judged elsewhere), and the dial's cancellation watcher: the   *)
+(* driver cancels the dial context only after DialContext has returned, so after a successful dial the watcher must not    *)
+(* have sent a disconnect frame (a connection handed to the caller is the caller's)                                         *)
+TDrops == IsEvent("Drops") /\ (Ev.dialok => Ev.latecancel = 0) /\ UNCHANGED dummy /\ Consume
 TMech == IsEvent("Mech") /\ UNCHANGED dummy /\ Consume
 TMuxLog == IsEvent("MuxLog") /\ UNCHANGED dummy /\ Consume      \* validated against AgwpeMux.tla (AgwpeMuxTrace.tla)
 TraceNext == TMuxLog \/ TDrops \/ TTxLog \/ TMech \/ TCrash \/ TApi \/ TReads \/ TTncData \/ TExchange \/ TMalformed
